@@ -13,7 +13,7 @@ import math
 import os
 import sys
 
-from .. import core, build, phr
+from .. import core, build, phr, drv
 from ..oracles import kin_exact as kx
 
 PROP = "C12"
@@ -181,8 +181,17 @@ def build_input(case, div, incr, integ, bsm):
 def run_one(case, div, incr, integ, bsm):
     """Executes one input on a freshly loaded instance.  Returns dict(ok, rows=[{t, time, cell, m:{name: v}, sol:{el: v}}], init)."""
     text, names = build_input(case, div, incr, integ, bsm)
-    s = phr.session("phreeqc.dat", reload=True)
-    r = s.run(text)
+    try:
+        s = phr.session("phreeqc.dat", reload=True)
+        r = s.run(text)
+    except drv.DrvDied as e:
+        # A crash is not what C12 is about (C08/C07 are), but it must neither pass silently nor look like a kinetics
+        # violation: the run is repeated once in a brand-new driver process; a second death is a harness error (exit 2).
+        _side_diags.append("driver process died once and the same input then ran normally in a fresh process (%s); input rate=%s ctx=%s division=%s incremental=%s integ=%s" % (
+            str(e)[:60], case["fam"], case["ctx"], div, incr, integ))
+        core.close_drvs()
+        s = phr.session("phreeqc.dat", reload=True)
+        r = s.run(text)
     ok = (r["rc"] == 0) and ("ERROR" not in r["err"])
     out = {"ok": ok, "text": text, "rows": [], "init": None, "err": r["err"][:300], "warn": r["warn"][:200]}
     if not ok:
@@ -212,6 +221,7 @@ def run_one(case, div, incr, integ, bsm):
 
 
 _ref_cache = {}
+_side_diags = []
 
 
 def reference(case, div, incr):
@@ -256,8 +266,11 @@ def judge(case, runs, refs):
     # the explicit-time law is outside the statement's list (zero-order, first-order, coupled linear) and the manual
     # does not define the value of TOTAL_TIME inside an integration interval: everything it shows is a diagnostic
     diag_only = (f is not None and f["law"] == "explicit-time")
-    tag = "rate=%s ctx=%s integrator=%s tol=%s" % (fam, ctx, lab, _g(tol))
-    where = "family=%s x=%s m0=%s integ=%s bad_step_max=%s" % (fam, case.get("x"), case.get("m0"), integ, case["bsm"])
+    # fingerprint = relation + integrator option + tolerance + order of magnitude of the excess: the mechanism.  The rate
+    # family and the context are in the explanation (all closed-form families are smooth linear laws: which of them
+    # shows an integrator's error first is not a different mechanism).
+    tag = "integrator=%s tol=%s" % (lab, _g(tol))
+    where = "rate=%s ctx=%s kT=%s m0=%s integ=%s bad_step_max=%s" % (fam, ctx, case.get("x"), case.get("m0"), integ, case["bsm"])
     problems, diags = [], []
 
     def add(fp, msg):
@@ -288,7 +301,7 @@ def judge(case, runs, refs):
             for name, m in row["m"].items():
                 # --- amounts never negative
                 if m < 0:
-                    add("negative-amount " + tag, "%s: reactant %s = %r < 0 at t=%r" % (rid, name, m, row["t"]))
+                    add("negative-amount ctx=%s %s" % (ctx, tag), "%s: reactant %s = %r < 0 at t=%r" % (rid, name, m, row["t"]))
                 # --- closed form of the calculation that produced this row
                 if ex is not None and not abs(m - ex[name]) <= lim:
                     e = abs(m - ex[name]) / tol
@@ -312,7 +325,7 @@ def judge(case, runs, refs):
                     gained = row["sol"][el] - sol0[el]
                     inv = abs(row["sol"][el]) + sum(abs(row["m"][n]) * coefs[n].get(el, 0) for n in coefs)
                     if not abs(gained - lost) <= REL_TRANSFER * inv:
-                        add("transfer-mismatch element=%s %s" % (el, tag), "%s: solution gained %r mol %s, reactants lost %r x formula (t=%r)" % (rid, gained, el, lost, row["t"]))
+                        add("transfer-mismatch element=%s ctx=%s %s" % (el, ctx, tag), "%s: solution gained %r mol %s, reactants lost %r x formula (t=%r)" % (rid, gained, el, lost, row["t"]))
                 prev = dict(row["m"])
 
     def final(r):
@@ -363,12 +376,10 @@ def judge(case, runs, refs):
 
 
 def decade(ratio):
-    """Order of magnitude of an error expressed in units of tol: '1e2..1e3xtol'.  Part of the fingerprint so that a
-    recorded miss of a few hundred tol cannot mask a gross one of the same configuration."""
-    if not ratio < 1e300:
-        return "inf"
-    k = int(math.floor(math.log10(ratio))) if ratio > 0 else 0
-    return "1e%d..1e%dxtol" % (k, k + 1)
+    """Size class of an error expressed in units of tol: '1e2..1e3xtol' (a few hundred tol) or '>=1e3xtol' (gross).
+    Part of the fingerprint so that a recorded miss of a few hundred tol cannot mask a gross one of the same
+    configuration."""
+    return "1e2..1e3xtol" if ratio < 1e3 else ">=1e3xtol"
 
 
 # ------------------------------------------------------------------------------------------------ case
@@ -377,6 +388,7 @@ def run_case(case):
     divs = BATCH_DIVS if ctx == "batch" else SHIFT_DIVS
     runs, refs = {}, {}
     states, nruns = [], 0
+    del _side_diags[:]
     for div in divs:
         for incr in (False, True):
             r = run_one(case, div, incr, integ, bsm)
@@ -393,17 +405,26 @@ def run_case(case):
             seen.add(p[0])
             uniq.append(p)
     n_ok = sum(1 for r in runs.values() if r["ok"])
-    first = next((r for r in runs.values() if r["ok"]), None)
     outcome = core.sha(repr([(k, [sorted(row["m"].items()) for row in r["rows"]] if r["ok"] else r["err"][:60]) for k, r in sorted(runs.items())]))
     sample = {"case": case, "runs_completed": n_ok, "runs": len(runs),
               "final_amounts": {"%s/%s" % k: (r["rows"][-1]["m"] if r["ok"] else "not completed: " + r["err"][:80]) for k, r in sorted(runs.items())}}
+    # why runs did not complete (R2: they are not judged), one line per distinct reason
+    nc = sorted(set("not completed (not judged): %s [integ=%s bad_step_max=%s tol=%s]" % (" ".join(r["err"].split())[:110], integ, bsm, _g(case["tol"]))
+                    for r in runs.values() if not r["ok"]))
     # the replay artefact lists the inputs (the driver script of the last run alone would not show the comparison partners)
     script = "".join("# ---- input division=%s incremental=%s\n%s" % (k[0], k[1], "".join("#   " + l + "\n" for l in r["text"].splitlines())) for k, r in sorted(runs.items()))
-    return {"case": case, "problems": uniq, "ops": nruns, "states": states, "outcome": outcome, "not_completed": n_ok < len(runs),
-            "sample": sample, "script": script, "diagnostics": sorted(set(diags))[:2]}
+    res = {"case": case, "problems": uniq, "ops": nruns, "states": states, "outcome": outcome, "not_completed": n_ok < len(runs),
+           "script": script, "diagnostics": list(_side_diags) + nc[:1] + sorted(set(diags))[:2]}
+    if case["fam"] != "tdep":          # evidence samples come from judged cases only
+        res["sample"] = sample
+    return res
 
 
 # ------------------------------------------------------------------------------------------------ lattice
+QUICK_INTEGRATORS = ["rk1", "rk2", "rk3", "rk6", "cv5s100", "cv2s100"]
+AUTONOMOUS = ["zero", "first", "two", "chain", "approach"]
+
+
 def cases(tier):
     """Returns list of (bound name, [cases]) in simplest-first order."""
     tols = [1e-6, 1e-8, 1e-10]
@@ -422,22 +443,21 @@ def cases(tier):
             out.append({"fam": fam, "ctx": "batch", "tol": tol, "integ": integ, "bsm": REF_BSM})
         return out
 
-    # explicit-time law: -cvode never sees the time inside a step (see final report), runs with tight tolerances take
-    # minutes; the family is explored on the sub-lattice below (all RK variants + cvode at its default order)
-    tdep = lambda: lattice(["tdep"], ["batch"], ["rk1", "rk2", "rk3", "rk6", "cv5s100"], [500], [1.0], [0.01, 1.0], [1e-6, 1e-8])
     if tier == "quick":
-        bounds.append(("closed forms, batch: 5 autonomous families x 3 kT x 3 tol x 8 integrators (m0 1, bad_step_max 500) x 4 divisions x 2 incremental",
-                       lattice(["zero", "first", "two", "chain", "approach"], ["batch"], INTEGRATORS, [500], [1.0])))
-        bounds.append(("explicit-time law, batch: 2 kT x 2 tol x {rk1, rk2, rk3, rk6, cvode 5} x 4 divisions x 2 incremental", tdep()))
-        bounds.append(("closed forms inside ADVECTION and TRANSPORT time steps: first-order x 3 kT x 3 tol x {rk3, rk6, cvode 5} x 3 shift counts x 2 incremental",
-                       lattice(["first"], ["adv", "trn"], ["rk3", "rk6", "cv5s100"], [500], [1.0])))
-        bounds.append(("shipped rates Calcite, Pyrite: tol 1e-8 x 8 integrators x 4 divisions x 2 incremental (invariances only)",
-                       shipped(["Calcite", "Pyrite"], INTEGRATORS, [1e-8])))
+        bounds.append(("DIAGNOSTIC ONLY (not judged) explicit-time law: kT 0.01 x tol 1e-6 x {rk1, rk3, cvode 5}",
+                       lattice(["tdep"], ["batch"], ["rk1", "rk3", "cv5s100"], [500], [1.0], [0.01], [1e-6])))
+        bounds.append(("closed forms, batch: 5 families x kT {0.01,1,10} x tol {1e-6,1e-8,1e-10} x 6 integrators (rk 1/2/3/6, cvode order 5 and 2; m0 1, bad_step_max 500) x 4 divisions x 2 incremental",
+                       lattice(AUTONOMOUS, ["batch"], QUICK_INTEGRATORS, [500], [1.0])))
+        bounds.append(("closed forms inside ADVECTION and TRANSPORT time steps: {zero, first} x 3 kT x 3 tol x {rk3, rk6, cvode 5} x shift counts {1,2,7} x 2 incremental",
+                       lattice(["zero", "first"], ["adv", "trn"], ["rk3", "rk6", "cv5s100"], [500], [1.0])))
+        bounds.append(("shipped rates Calcite, Pyrite: tol 1e-8 x 6 integrators x 4 divisions x 2 incremental (invariances only)",
+                       shipped(["Calcite", "Pyrite"], QUICK_INTEGRATORS, [1e-8])))
     else:
-        bounds.append(("closed forms, batch: 5 autonomous families x 3 kT x 3 tol x 8 integrators x bad_step_max {10,500} x m0 {1, 0.001} x 4 divisions x 2 incremental",
-                       lattice(["zero", "first", "two", "chain", "approach"], ["batch"], INTEGRATORS, [500, 10], [1.0, 1e-3])))
-        bounds.append(("explicit-time law, batch: 2 kT x 2 tol x {rk1, rk2, rk3, rk6, cvode 5} x 4 divisions x 2 incremental", tdep()))
-        bounds.append(("closed forms inside ADVECTION and TRANSPORT time steps: 4 families x 3 kT x 3 tol x 8 integrators x 3 shift counts x 2 incremental",
+        bounds.append(("DIAGNOSTIC ONLY (not judged) explicit-time law: kT {0.01,1} x tol {1e-6,1e-8} x {rk1, rk2, rk3, rk6, cvode 5}",
+                       lattice(["tdep"], ["batch"], ["rk1", "rk2", "rk3", "rk6", "cv5s100"], [500], [1.0], [0.01, 1.0], [1e-6, 1e-8])))
+        bounds.append(("closed forms, batch: 5 families x 3 kT x 3 tol x 8 integrators (+ cvode_steps 1000) x bad_step_max {500,10} x m0 {1, 0.001} x 4 divisions x 2 incremental",
+                       lattice(AUTONOMOUS, ["batch"], INTEGRATORS, [500, 10], [1.0, 1e-3])))
+        bounds.append(("closed forms inside ADVECTION and TRANSPORT time steps: {zero, first, two, chain} x 3 kT x 3 tol x 8 integrators x shift counts {1,2,7} x 2 incremental",
                        lattice(["zero", "first", "two", "chain"], ["adv", "trn"], INTEGRATORS, [500], [1.0])))
         bounds.append(("shipped rates Calcite, Pyrite, Organic_C, K-feldspar: 3 tol x 8 integrators x 4 divisions x 2 incremental (invariances only)",
                        shipped(["Calcite", "Pyrite", "Organic_C", "K-feldspar"], INTEGRATORS, [1e-6, 1e-8, 1e-10])))
@@ -446,12 +466,19 @@ def cases(tier):
 
 ASSUMPTIONS = [
     "database/phreeqc.dat loads without error; its RATES blocks Calcite, Pyrite, Organic_C, K-feldspar are used verbatim",
-    "-tol is an absolute tolerance in moles per reactant (PHREEQC manual, KINETICS); '100 x the user tolerance' = 100 * tol moles",
+    "-tol is an absolute tolerance in moles per reactant (PHREEQC manual, KINETICS -tol: 'Tolerance for integration procedure (moles)'); "
+    "'100 x the user tolerance' = 100 * tol moles, applied per KINETICS calculation (one time step / one shift) for the closed-form relation "
+    "and to the amounts reported for the same time for the three invariance relations",
     "rate programs SAVE moles leaving the reactant over TIME (manual, RATES); positive = reactant decreases, formula enters the solution",
-    "step semantics from the manual: '-steps T in n steps' = n equal increments; a list is cumulative times when INCREMENTAL_REACTIONS false and increments when true",
+    "step semantics from the manual: '-steps T in n steps' = n equal increments; a list is cumulative times when INCREMENTAL_REACTIONS false "
+    "(every step integrated anew from time zero) and increments when true (a step starts from the previous result)",
+    "ADVECTION / TRANSPORT integrate the rates over -time_step per shift in every cell (manual); a simulation that defines a solution and "
+    "KINETICS also performs a 1 s batch reaction first (manual: implicit batch reaction, -steps default 1 s) - suppressed with 'USE solution none'",
     "TOT(\"el\") * TOT(\"water\") = moles of the element in the solution (used for the transfer relation, tolerance 1e-6 of the inventory as in C02)",
     "constants taken from the implementation: none (defaults used only as option values: -bad_step_max 500, -cvode_steps 100, -cvode_order 5, -runge_kutta 3)",
     "reference integrator of the integrator-invariance relation is -runge_kutta 6 with -bad_step_max 500",
+    "not part of the claim: rate laws that read TOTAL_TIME (the manual defines TOTAL_TIME only as the cumulative time read-out, not its value inside "
+    "an integration interval; the statement lists zero-order, first-order and coupled linear laws) - explored, reported as diagnostics",
 ]
 
 
@@ -460,13 +487,12 @@ def run(tier):
     findings = core.Findings(PROP)
     ev.assumptions = list(ASSUMPTIONS)
     pool = core.Pool()
-    dl = core.Deadline(170 if tier == "quick" else 1700)
+    dl = core.Deadline(150 if tier == "quick" else 1500)
     prev = True
     ncases = 0
     for name, cs in cases(tier):
         done = False
         if prev:
-            # long-running lattice points (cvode at 1e-10) first inside a chunk does not matter: order is kept simplest-first
             done = core.explore_cases(cs, run_case, ev, findings, pool, chunksize=1, deadline=dl)
         ev.bound(name, done, cases=len(cs))
         ncases += len(cs)
@@ -475,11 +501,16 @@ def run(tier):
     n_ok = sum(1 for s in ev.states if str(s).startswith("ok:"))
     n_nc = sum(1 for s in ev.states if str(s).startswith("nc:"))
     ev.extra["lattice_points_cases"] = ncases
+    ev.extra["lattice_points_runs"] = n_ok + n_nc
     ev.extra["engine_runs_completed"] = n_ok
     ev.extra["engine_runs_not_completed"] = n_nc
-    ev.extra["alphabet"] = {"families": ["zero", "first", "two", "chain", "approach", "tdep"] + sorted(SHIPPED), "kT": [0.01, 1, 10], "tol": [1e-6, 1e-8, 1e-10],
-                            "integrators": INTEGRATORS, "divisions_batch": BATCH_DIVS, "shift_counts": SHIFT_DIVS, "incremental": [False, True],
-                            "contexts": ["batch", "adv", "trn"], "bad_step_max": [10, 500]}
+    ev.extra["alphabet"] = {"families": AUTONOMOUS + ["tdep (diagnostic only)"] + sorted(SHIPPED), "kT": [0.01, 1, 10], "tol": [1e-6, 1e-8, 1e-10],
+                            "integrators": QUICK_INTEGRATORS if tier == "quick" else INTEGRATORS, "divisions_batch": BATCH_DIVS, "shift_counts": SHIFT_DIVS,
+                            "incremental": [False, True], "contexts": ["batch", "adv", "trn"], "bad_step_max": [500] if tier == "quick" else [500, 10],
+                            "m0": [1.0] if tier == "quick" else [1.0, 1e-3]}
+    ev.extra["relations"] = ["negative-amount", "exact-solution-miss (per KINETICS calculation, 100 x tol)", "transfer-mismatch (batch, ADVECTION; 1e-6 of the inventory)",
+                             "step-division-dependence (final time, 100 x tol)", "incremental-dependence (every reported time, 100 x tol)",
+                             "integrator-dependence (vs -runge_kutta 6, every reported time, 100 x tol)"]
     if ev.traces and n_ok < 0.5 * (n_ok + n_nc):
         sys.stderr.write("HARNESS ERROR C12: only %d of %d runs completed - the check is broken (R2 floor)\n" % (n_ok, n_ok + n_nc))
         return 2
